@@ -398,7 +398,7 @@ def fam(fn, kind):
 
 
 FAMILIES = [Family("bmat-directed", bmat_directed, 20, 400)]
-for kd, q, th in (("line", 4, 60), ("tri", 12, 300), ("quad", 8, 200), ("tet", 8, 160), ("hex", 6, 100)):
+for kd, q, th in (("line", 6, 90), ("tri", 18, 450), ("quad", 12, 300), ("tet", 14, 280), ("hex", 10, 160)):
     FAMILIES.append(Family("split-" + kd, fam(split_interp, kd), q, th))
     FAMILIES.append(Family("blocks-" + kd, fam(coupled_blocks, kd), q, th))
     FAMILIES.append(Family("partition-" + kd, fam(partition_sum, kd), max(3, q // 2), th // 2))
